@@ -382,3 +382,11 @@ Qed.
 
 Lemma closed_channel_writes_nothing : forall s, s_out_open s = false -> send_queued s = s.
 Proof. intros s H. unfold send_queued. rewrite H. reflexivity. Qed.
+
+(* ---------- C09: the session survives garbage ---------- *)
+(* a frame that does not parse leaves the session exactly as it was (apart from the per-event logs being cleared) *)
+Lemma garbage_harmless : forall s, step s EGarbage = clear_logs s.
+Proof.
+  intros s. unfold step, step_event, incoming, incoming_with.
+  destruct (negb (is_connected (s_st (clear_logs s)))); reflexivity.
+Qed.
